@@ -107,7 +107,8 @@ def run(scn, st):
                         st.count("probe.fanout2_removal")
                         break
                 for l in t.dovetails:
-                    if l.from_segment is l.to_segment:
+                    same = core.call(lambda: l.from_segment is l.to_segment)     # (a probe only)
+                    if same.ok and same.value:
                         st.count("probe.self_link")
                         break
         if op["op"] == "rename" and w.gfa is not None:
